@@ -295,3 +295,33 @@ func zzC12_addrs() {
 	}
 	vReach("C12_addrs")
 }
+
+// zzC12_writefault: the k-th CER transmission (first or a retransmission) cannot be written while the
+// read side of the transport stays alive and the peer stays silent: the dial returns an error and the
+// transport has been closed.
+func zzC12_writefault() {
+	st := New(zzSettings(true))
+	retrans := vLen("retransmits", 0, vParam("R", 1))
+	cli := zzClient(st, retrans, false)
+	t := zzNewTransport("198.51.100.7:3868")
+	t.failWriteAt = 1 + vChoice("faultAt", retrans+1)
+	var conn diam.Conn
+	var herr error
+	done := false
+	go func() {
+		conn, herr = cli.NewConn(t, "zz")
+		done = true
+	}()
+	vQuiesce()
+	for !done && vPendingTimers() > 0 {
+		vAdvance()
+		vQuiesce()
+	}
+	vAssert(done, "the dial returns")
+	vAssert(conn == nil && herr != nil, "a CER that cannot be written fails the dial")
+	vAssert(t.isClosed, "and the transport has been closed")
+	vAssert(len(t.written) == t.failWriteAt-1, "no transmission after the failed one")
+	vQuiesce()
+	vAssert(vLeaks() == 0, "no goroutine of the failed connection is left behind")
+	vReach("C12_writefault")
+}
